@@ -459,8 +459,14 @@ pub fn gen_conn_ep(r: &mut Rng, id: u64, kind: Kind, base: u64, ep: Option<Endpo
         }
         Kind::Tls => {
             let size = *r.pick(&[0usize, 0, 517, 1800, 4000]);
-            let hello = client_hello(r, id, size);
+            let mut hello = client_hello(r, id, size);
             let c = cuts(r, hello.len(), 4).into_iter().filter(|x| *x >= 5).collect::<Vec<_>>();
+            if r.chance(1, 4) {
+                // further records coalesced into the segment that completes the hello (0-RTT early
+                // data, a change_cipher_spec): bytes after the ClientHello record belong to no result
+                let extra = if r.chance(1, 2) { app_data(r, 30) } else { vec![0x14, 0x03, 0x03, 0x00, 0x01, 0x01] };
+                hello.extend(extra);
+            }
             s.c_stream(&hello, &c);
             s.s_stream(&server_hello_like(), &[]);
             if r.chance(1, 2) {
